@@ -82,6 +82,8 @@ let of_ints l = String.concat "," (List.map dec_of_z l)
 (* (code, payload) outcomes: 0 Ok, 1 Err, 2 Panic *)
 let oc3 show (code, v) = match int_of_nat code with 0 -> "Ok " ^ show v | 1 -> "Err" | _ -> "Panic"
 
+let c11_show ((code, s), k) = match int_of_nat code with 0 -> "Name " ^ hx_of_bytes s | 1 -> "ID " ^ dec_of_z k | _ -> "None"
+
 (* ---- dispatch: kind -> inputs -> outputs ---- *)
 let eval (kind : ostring) (ins : ostring list) : ostring list =
   match kind, ins with
@@ -104,6 +106,25 @@ let eval (kind : ostring) (ins : ostring list) : ostring list =
     [oc3 dec_of_z (c09_parse (n_of_dec w) (bytes_of_hx s))]
   | "ident", [w; x; choice] ->
     [oc3 hx_of_bytes (c09_ident (choice = "1") (n_of_dec w) (z_of_dec x))]
+  | "global_name", [n] -> ["Ok " ^ hx_of_bytes (global_name (bytes_of_hx n))]
+  | "local_name", [n] -> ["Ok " ^ hx_of_bytes (local_name (bytes_of_hx n))]
+  | "label_name", [n] -> ["Ok " ^ hx_of_bytes (label_name (bytes_of_hx n))]
+  | "type_name", [n] -> ["Ok " ^ hx_of_bytes (type_name (bytes_of_hx n))]
+  | "comdat_name", [n] -> ["Ok " ^ hx_of_bytes (comdat_name (bytes_of_hx n))]
+  | "metadata_name", [n] -> [match metadata_name (bytes_of_hx n) with Some t -> "Ok " ^ hx_of_bytes t | None -> "Panic"]
+  | "escape_ident", [n] -> ["Ok " ^ hx_of_bytes (escape_ident (bytes_of_hx n))]
+  | "escape_string", [n] -> ["Ok " ^ hx_of_bytes (escape_string (bytes_of_hx n))]
+  | "quote", [n] -> ["Ok " ^ hx_of_bytes (quote (bytes_of_hx n))]
+  | "unescape", [n] -> ["Ok " ^ hx_of_bytes (unescape (bytes_of_hx n))]
+  | "global_id", [n] -> [hx_of_bytes (global_id (n_of_dec n))]
+  | "local_id", [n] -> [hx_of_bytes (local_id (n_of_dec n))]
+  | "label_id", [n] -> [hx_of_bytes (label_id (n_of_dec n))]
+  | ("decode_global" | "decode_func"), [n] -> [c11_show (c11_dec_global (bytes_of_hx n))]
+  | ("decode_param" | "decode_result"), [n] -> [c11_show (c11_dec_local (bytes_of_hx n))]
+  | "decode_block", [n] -> [c11_show (c11_dec_label (bytes_of_hx n))]
+  | "decode_type", [n] -> [match c11_dec_type (bytes_of_hx n) with Some s -> "Name " ^ hx_of_bytes s | None -> "None"]
+  | "decode_comdat", [n] -> [match c11_dec_comdat (bytes_of_hx n) with Some s -> "Name " ^ hx_of_bytes s | None -> "None"]
+  | ("decode_metadata" | "decode_attachment"), [n] -> [match c11_dec_metadata (bytes_of_hx n) with Some s -> "Name " ^ hx_of_bytes s | None -> "None"]
   | _ -> failwith ("unknown kind " ^ kind)
 
 let () =
